@@ -268,10 +268,18 @@ def cell_invariants(res, ls, k, time, data, volume, where):
         # The simulator records a row before it applies the volume step of the same grid time, so the reported volume
         # lags the law by one step: rows 0 and 1 of a cell both show its initial volume, from then on every row is the
         # growth step of the previous one (an assignment law is evaluated at the previous or the current grid time).
+        dt_ = ls["grid"][1] - ls["grid"][0]
+        exact_grid = (dt_ * 1024 == int(dt_ * 1024)) and all(ls["grid"][i] == i * dt_ for i in range(len(ls["grid"])))
         for j in range(len(time) - 1):
             cands = [step(float(volume[j]), float(time[j + 1])), step(float(volume[j]), float(time[j]))]
             if j == 0:
                 cands.append(float(volume[0]))
+            if not exact_grid:
+                # the simulator's own clock (t += dt) drifts by an ulp against a grid such as 0.1 * i, so a row may be
+                # recorded one volume step early or late: between two rows the law may have been applied 0, 1 or 2 times
+                cands.append(float(volume[j]))
+                cands.append(step(step(float(volume[j]), float(time[j])), float(time[j + 1])))
+                cands.append(step(step(float(volume[j]), float(time[j + 1])), float(time[j + 1]) + dt_))
             if not any(abs(volume[j + 1] - exp) <= 1e-9 * max(1.0, abs(exp)) for exp in cands):
                 res.fail(("volume_row_does_not_follow_growth_law", where, ls["growth"][0]["type"]), cell=k, row=j + 1,
                          time=float(time[j + 1]), got=float(volume[j + 1]), expected=cands, previous=float(volume[j]),
